@@ -157,13 +157,17 @@ def shard(args):
         out["dates"][kind] = out["dates"].get(kind, 0) + 1
         out["cases"] += 1
         labels = [eo.op_label(o) for o in ops]
-        trig = ""
-        if history.has_shared_job(live.spec):
-            trig += ":shared-job"              # D2 family: dict entries of one id are handled as one
-        if any(o.get("attr") == "country" or o["op"] == "settz" for o in ops):
-            trig += ":timezone-change"         # local-time inputs are cut in the baseline zone, recomputed in the new one
+        # C05: only the D2 family (dict entries of one id handled as one) is a known cause of a changed baseline
+        trig = ":shared-job" if history.has_shared_job(live.spec) else ""
+        # C06 "hours before the date": one label, the first applicable known cause
+        if any(o["op"] == "sethourly" for o in ops):
+            trig6 = ":hourly-input-change"     # D26: an hourly input that is itself changed is not cut at the date
+        elif any(o.get("attr") == "country" or o["op"] == "settz" for o in ops):
+            trig6 = ":timezone-change"         # D21: local-time inputs are cut in the baseline zone, recomputed in the new one
         elif any(o["op"] in ("setlink", "setlist") for o in ops):
-            trig += ":link-change"             # dependencies created by the change are unknown when ancestors are cut at the date
+            trig6 = ":link-change"             # D22: dependencies created by the change are unknown when ancestors are cut
+        else:
+            trig6 = trig                       # D2 family
         replay = {"spec": spec, "ops": ops, "date_kind": kind, "date": date.isoformat()}
         before = snapshot.deep(live.rs.objs)
         sim = None
@@ -223,7 +227,7 @@ def shard(args):
             if date <= min_last:
                 for v, r in zip(vtr, rec):
                     if isinstance(r, ExplainableHourlyQuantities) and not isinstance(r, dict) and len(r.value) and r.value.index.min().to_pydatetime() < date:
-                        out["violations"].append({"signature": "C06:simulated-series-starts-before-date" + trig,
+                        out["violations"].append({"signature": "C06:simulated-series-starts-before-date" + trig6,
                                                   "detail": f"{v.id}: simulated series starts {r.value.index.min()} < {date}", "replay": replay})
                         break
             # first hour: simulated values = really applying the same changes
